@@ -403,6 +403,11 @@ k13_conf(int server) {
 static void
 k_oscore(void) {
   coap_oscore_conf_t *sc = k13_conf(1);
+  /* a call that returns a result under memory pressure must return the right one */
+  if (sc && (sc->recipient_id_count != 1 || !sc->master_salt || !sc->sender_id || sc->rfc8613_b_1_2 != 0))
+    failsig("silent-wrong-result:coap_new_oscore_conf", "coap_new_oscore_conf() returned a configuration that differs from its input "
+            "(recipient ids %u, salt %s, B.1.2 %d) instead of NULL", (unsigned)sc->recipient_id_count, sc->master_salt ? "present" : "missing",
+            (int)sc->rfc8613_b_1_2);
   if (sc && !coap_context_oscore_server(S.sc, sc)) {
     /* ownership: the configuration is consumed also on failure */
   }
